@@ -2028,6 +2028,20 @@ PREFIX (_inverse) (region_type_t *new_reg,  /* Destination region */
     GOOD (reg1);
     GOOD (new_reg);
     
+    /* an empty bounding box contains no points: the result is empty */
+    if (!GOOD_RECT (inv_rect))
+    {
+        if (PIXREGION_NAR (reg1))
+	    return pixman_break (new_reg);
+
+        FREE_DATA (new_reg);
+        new_reg->extents.x2 = new_reg->extents.x1;
+        new_reg->extents.y2 = new_reg->extents.y1;
+        new_reg->data = pixman_region_empty_data;
+
+        return TRUE;
+    }
+
     /* check for trivial rejects */
     if (PIXREGION_NIL (reg1) || !EXTENTCHECK (inv_rect, &reg1->extents))
     {
